@@ -227,6 +227,69 @@ inline std::vector<Program> fe_programs() {
   return v;
 }
 
+// ---- generated program family ------------------------------------------------
+// All fan-out shapes with <= 4 items (given as parent vectors; -1 = initial
+// item) x every assignment of "pushed before / after the last acquire" to the
+// children x three acquire patterns (everybody locks object 0; neighbours
+// lock {0,1} in opposite orders; nobody locks) x voluntary abort of item 0
+// on/off.  Enumerated in a fixed order, simplest first.
+inline std::vector<Program> fe_generated_programs() {
+  static const std::vector<std::vector<int>> shapes = {
+      {-1, -1},        {-1, 0},         {-1, 0, 0},       {-1, 0, 1},
+      {-1, -1, 0},     {-1, -1, 1},     {-1, 0, 0, 0},    {-1, 0, 1, 2},
+      {-1, 0, 1, 1},   {-1, -1, 0, 1},  {-1, -1, 0, 2}};
+  std::vector<Program> out;
+  int id = 0;
+  for (auto& par : shapes) {
+    int n = (int)par.size(), nch = 0;
+    for (int x : par)
+      nch += x >= 0;
+    for (int kinds = 0; kinds < (1 << nch); ++kinds)
+      for (int pat = 0; pat < 3; ++pat)
+        for (int vab = 0; vab < 2; ++vab) {
+          if (vab && pat == 2)
+            continue; // a voluntary abort needs conflict detection anyway
+          Program p;
+          p.items.resize(n);
+          p.ninit = 0;
+          int ch  = 0;
+          std::vector<int> depth(n, 0);
+          for (int i = 0; i < n; ++i) {
+            if (par[i] < 0)
+              p.ninit++;
+            else {
+              depth[i] = depth[par[i]] + 1;
+              if ((kinds >> ch) & 1)
+                p.items[par[i]].pre.push_back(i);
+              else
+                p.items[par[i]].post.push_back(i);
+              ++ch;
+            }
+            p.items[i].prio = depth[i];
+            if (pat == 0)
+              p.items[i].acq = {0};
+            else if (pat == 1)
+              p.items[i].acq = (i & 1) ? std::vector<int>{1, 0}
+                                       : std::vector<int>{0, 1};
+          }
+          // initial items must be numbered 0..ninit-1: shapes are written so
+          p.items[0].vabort = vab;
+          // a "pre" push needs a last acquire to be before
+          bool ok = true;
+          for (auto& it : p.items)
+            if (!it.pre.empty() && it.acq.empty())
+              ok = false;
+          if (!ok)
+            continue;
+          p.name = "gen" + std::to_string(id++) + "(n" + std::to_string(n) +
+                   ",k" + std::to_string(kinds) + ",a" + std::to_string(pat) +
+                   (vab ? ",abort" : "") + ")";
+          out.push_back(p);
+        }
+  }
+  return out;
+}
+
 inline std::string fe_topo_str(const std::vector<int>& t) {
   std::string s = "[";
   for (size_t i = 0; i < t.size(); ++i)
